@@ -303,6 +303,15 @@ class PE:
             return a
         if isinstance(a, float):
             raise PEError(f"{name} of float infinity")
+        if name == "sqrt":
+            c = dag.as_const(a) if isinstance(a, Node) else a
+            if isinstance(c, (int, Fraction)) and not isinstance(c, bool) and c >= 0:
+                c = Fraction(c)
+                import math as _m
+
+                rn, rd = _m.isqrt(c.numerator), _m.isqrt(c.denominator)
+                if rn * rn == c.numerator and rd * rd == c.denominator:
+                    return Fraction(rn, rd)  # exact rational root
         r = dag.fn(name, a)
         return r
 
